@@ -8,7 +8,7 @@ func vPeerID() PeerID {
 	return id
 }
 
-//verif: cover=decoded bounds="every 32-byte id"
+// verif: cover=decoded bounds="every 32-byte id"
 func VH_C17_peerIDRoundTrip() bool {
 	id := vPeerID()
 	txt, err := id.MarshalText()
@@ -23,7 +23,7 @@ func VH_C17_peerIDRoundTrip() bool {
 	return id2 == id
 }
 
-//verif: cover=ordered bounds="every pair of 32-byte ids"
+// verif: cover=ordered bounds="every pair of 32-byte ids"
 func VH_C17_peerIDOrder() bool {
 	a := vPeerID()
 	b := vPeerID()
@@ -33,7 +33,7 @@ func VH_C17_peerIDOrder() bool {
 	return (string(ta) < string(tb)) == a.Lt(b)
 }
 
-//verif: cover=rejected bounds="every text of length 0..48 except 43 is rejected"
+// verif: cover=rejected bounds="every text of length 0..48 except 43 is rejected"
 func VH_C17_peerIDWrongLength() bool {
 	n := vInt(0, 48)
 	vAssume(n != 43)
@@ -53,7 +53,7 @@ func vAlphaIndex(ch byte) int {
 	return idx
 }
 
-//verif: unwind=64 cover=valid,invalid bounds="every 43-byte text with at most 1 (quick) / 2 (thorough) CR/LF characters: accepted iff all characters are in the alphabet, and then the id is the 256 leading bits"
+// verif: unwind=64 cover=valid,invalid bounds="every 43-byte text with at most 1 (quick) / 2 (thorough) CR/LF characters: accepted iff all characters are in the alphabet, and then the id is the 256 leading bits"
 func VH_C17_peerIDStrictDecode() bool {
 	txt := vBytesN(43)
 	allValid := true
